@@ -329,9 +329,13 @@ def run(chk):
     ri, rm = chk.correspond(impl, model, 'stage 1: codec, initialize, generate, crafted proofs', cases=s1)
     check_expect(chk, s1, ri, expect)
     # ---- stage 2
-    s2, gen2 = [], []
+    s2, gen2 = [], []; skipped_chains = 0
     for c in chains:
         f = ri[c['idx']].split(' ')
+        if f[0] == '#0' and rm[c['idx']].split(' ')[0] == '#0':
+            # the random subsets drawn within the iteration limit all missed the output tag: a legitimate failure that the
+            # model reproduces (same CSPRNG stream); the property only constrains successful initialisations
+            skipped_chains += 1; continue
         if f[0] in ('#0', 'CRASH') or len(f) < 5 or not f[0].startswith('#'):
             chk.violations.append({'kind': 'correspondence', 'class': 'chain_initialize_must_succeed', 'case': s1[c['idx']][0][:3000], 'impl': ri[c['idx']][:300], 'model': rm[c['idx']][:300]})
             continue
@@ -360,4 +364,4 @@ def run(chk):
         verify_variants(chk, s3, expect, parse_proof_fields(f[1:4]), c['ins'], c['out'], True, heavy=(c['k'] > 64))
     ri3, rm3 = chk.correspond(impl, model, 'stage 3: verify of chain proofs', cases=s3)
     check_expect(chk, s3, ri3, expect)
-    chk.extra['honest_chains'] = len(gen2)
+    chk.extra['honest_chains'] = len(gen2); chk.extra['chains_skipped_iteration_limit_reached'] = skipped_chains
